@@ -632,6 +632,13 @@ func rulesC09(w *World, o *Out) {
 			case s.ok:
 				o.Pass("C09.R2", key, w.Pos(s.pos), s.why)
 			case c09Triage[key] != "":
+				// a triage reason that rests on a checkable structure is re-verified on every run
+				if cond := c09TriageCond(key); cond != nil {
+					if okc, why := cond(w); !okc {
+						o.Fail("C09.R2", key, w.Pos(s.pos), "the reason this site was triaged as safe no longer holds: "+c09Triage[key]+" — "+why, w.Path(U, f)...)
+						continue
+					}
+				}
 				o.Pass("C09.R2", key, w.Pos(s.pos), "triaged: "+c09Triage[key])
 			default:
 				o.Fail("C09.R2", key, w.Pos(s.pos), "may-panic site on an unrecovered Begin/EndBlock path is neither guarded nor triaged", w.Path(U, f)...)
@@ -705,4 +712,60 @@ func gracePeriodInfallible(w *World) (bool, string) {
 		return false, "UpdateGracePeriod now contains another fallible call: " + c.String() + " at " + w.Pos(s.Instr.Pos())
 	}
 	return true, "fallible calls inside UpdateGracePeriod are limited to parsing staking operator addresses"
+}
+
+// c09TriageCond: side conditions of triage entries. The attesters' unchecked assertion
+// `a.msg.Action.(*types.Message_X)` is safe because the attester for X is only constructed in the
+// type-switch case for *types.Message_X; that is checked here on every run.
+func c09TriageCond(key string) func(w *World) (bool, string) {
+	const pfx = "(*x/evm/keeper."
+	if !strings.HasPrefix(key, pfx) || !strings.Contains(key, "Attester).Execute|assert|type assertion to *types.Message_") {
+		return nil
+	}
+	att := strings.TrimPrefix(key, pfx)
+	att = att[:strings.Index(att, ")")]                           // compassHandoverAttester
+	typ := key[strings.LastIndex(key, "*types.")+len("*types."):] // Message_CompassHandover
+	ctor := "new" + strings.ToUpper(att[:1]) + att[1:]
+	return func(w *World) (bool, string) {
+		n := 0
+		// direct constructions outside the constructor function
+		for _, f := range w.ProdFuncs {
+			for _, s := range CallsIn(f) {
+				if s.Callee.Name != ctor || !strings.HasSuffix(s.Callee.Pkg, "x/evm/keeper") {
+					continue
+				}
+				n++
+				held := false
+				for _, fa := range FactsAt(s.Instr) {
+					if fa.Kind != FTrue {
+						continue
+					}
+					if ex, ok := canon(fa.V).(*ssa.Extract); ok {
+						if ta, ok := ex.Tuple.(*ssa.TypeAssert); ok && strings.HasSuffix(types.TypeString(ta.AssertedType, nil), "."+typ) {
+							held = true
+						}
+					}
+				}
+				if !held {
+					return false, ctor + " is called at " + w.Pos(s.Instr.Pos()) + " outside a type-switch case for *types." + typ
+				}
+			}
+			// a composite literal of the attester type anywhere but in its constructor
+			if f.Name() != ctor {
+				for _, b := range f.Blocks {
+					for _, in := range b.Instrs {
+						if al, ok := in.(*ssa.Alloc); ok {
+							if nt := namedOf(al.Type().(*types.Pointer).Elem()); nt != nil && nt.Obj().Name() == att {
+								return false, att + " is constructed directly in " + w.FuncKey(f)
+							}
+						}
+					}
+				}
+			}
+		}
+		if n == 0 {
+			return false, "constructor " + ctor + " has no call site (structure changed)"
+		}
+		return true, ""
+	}
 }
